@@ -54,7 +54,7 @@ def run(tier, rep, replay=None):
 
 
 MANIFEST = {
- "text": "Canon.tla models an encoded group element as a tuple of field classes and the decoder as 'accept iff every field canonical, on the curve, and in the prime-order subgroup where the library relies on it'; TLC enumerates all class combinations for the 13 formats (decision total, encoder image = accepted set, each harness class is a single fault, every single fault is rejected). The driver builds members of each class with math/big - coordinates equal to or above the modulus, spare / flag / infinity bits, points off the curve, points on the curve outside the r-torsion (small-x BLS12-381 G1 and G2 points), x = 0 with sign bit, non-canonical aliases of real Ed448 / Ed25519 keys signed over - plus every single-bit flip of valid encodings and random strings, feeds them to G1/G2.SetBytes, BLS public keys (Validate), the four group decoders, OPRF public keys, goldilocks.FromBytes, Ed448/Ed25519 verification, fourq.Point.Unmarshal, curve4q.Shared and ML-KEM public-key parsing (default and purego builds), and records acceptance, re-serialisation equality and membership; TLC judges each (format, class).",
+ "text": "Canon.tla models an encoded group element as a tuple of field classes and the decoder as 'accept iff every field canonical, on the curve, and in the prime-order subgroup where the library relies on it'; TLC enumerates all class combinations for the 13 formats (decision total, encoder image = accepted set, each harness class is a single fault, every single fault is rejected). The driver builds members of each class with math/big - coordinates equal to or above the modulus, spare / flag / infinity bits, points off the curve, points on the curve outside the r-torsion (small-x BLS12-381 G1 and G2 points), x = 0 with sign bit, non-canonical aliases of real Ed448 / Ed25519 keys signed over - plus every single-bit flip of valid encodings and random strings, feeds them to G1/G2.SetBytes, BLS public keys (Validate), the four group decoders, OPRF public keys, goldilocks.FromBytes, Ed448/Ed25519 verification, fourq.Point.Unmarshal, curve4q.Shared and ML-KEM public-key parsing (default and purego builds), and records acceptance, re-serialisation equality and membership; TLC judges each (format, class). Canon.tla has the field length (exact / longer): the class trailing (an encoding followed by further bytes) is applied to every slice-taking decoder, the uncompressed forms of BLS and OPRF public keys are bad-flags inputs, and the ed25519 / ed448 scheme key decoders are a format of their own.",
  "note": "Classes and bit flips, not all byte strings. Membership of accepted values uses the library's own scalar multiplication (validated by C13).",
  "technique": "TLC-enumerated field-class model of canonical decoding; class members constructed with math/big and all single-bit flips replayed on real decoders; TLC judges recorded verdicts",
 }
